@@ -189,7 +189,7 @@ def derive(facts):
     return derived
 
 
-def compute(cfg, assume=(), call_kills=None, expand=None, await_kills=False):
+def compute(cfg, assume=(), call_kills=None, expand=None, await_kills=False, tests_only=False):
     """assume: iterable of guard texts taken to hold at function entry (e.g. a literal
     parameter value).  expand(expr, node) -> expr with single-definition locals substituted
     (or None).  Returns Facts."""
@@ -228,7 +228,8 @@ def compute(cfg, assume=(), call_kills=None, expand=None, await_kills=False):
     gens = {}
     for n in cfg.nodes:
         kills[n.id] = node_kills(n, call_kills)
-        gens[n.id] = [register(l, n) for l in assignment_facts(n)]
+        # tests_only: facts come from tests (and `assume`) alone — used to tell "this was tested on the way" from "this was just assigned"
+        gens[n.id] = [] if tests_only else [register(l, n) for l in assignment_facts(n)]
         if await_kills and any(isinstance(s, ast.Await) for e in evaluated_exprs(n) if e is not None
                                for s in walk_local(e)):
             kills[n.id] = (kills[n.id][0], kills[n.id][1] | {"<await>"})
